@@ -96,6 +96,13 @@ func (p *Prog) TraceBackPath(start ssa.Value, startPath []int, opts TraceOpts, v
 		case *ssa.Field:
 			push(x.X, append([]int{x.Field}, w.path...))
 		case *ssa.Extract:
+			if _, isCall := x.Tuple.(*ssa.Call); !isCall {
+				// comma-ok lookup / type assertion / map iteration: the component depends on the tuple's operands
+				if opts.ThroughOps {
+					push(x.Tuple, nil)
+				}
+				break
+			}
 			p.traceCallResult(x.Tuple, x.Index, w.path, opts, push)
 		case *ssa.Call:
 			p.traceCallResult(x, 0, w.path, opts, push)
@@ -133,6 +140,36 @@ func (p *Prog) TraceBackPath(start ssa.Value, startPath []int, opts TraceOpts, v
 				push(x.X, nil)
 			}
 		case *ssa.Index:
+			if opts.ThroughOps {
+				push(x.X, nil)
+			}
+		case *ssa.Alloc:
+			// a local object filled through library methods (strings.Builder, bytes.Buffer, hash): what is written into
+			// it flows out of it
+			if opts.ThroughOps && opts.ThroughExtern {
+				if refs := x.Referrers(); refs != nil {
+					for _, r := range *refs {
+						ci, ok := r.(ssa.CallInstruction)
+						if !ok {
+							continue
+						}
+						cc := ci.Common()
+						if cc.IsInvoke() || len(cc.Args) < 2 || cc.Args[0] != x {
+							continue
+						}
+						if sc := cc.StaticCallee(); sc != nil && !p.IsRepoFunc(sc) {
+							for _, a := range cc.Args[1:] {
+								push(a, nil)
+							}
+						}
+					}
+				}
+			}
+		case *ssa.Next:
+			if opts.ThroughOps {
+				push(x.Iter, nil)
+			}
+		case *ssa.Range:
 			if opts.ThroughOps {
 				push(x.X, nil)
 			}
